@@ -445,7 +445,19 @@ pub mod sp {
         ensures q.len() == 0 ==> #[trigger] total_q(m, q, f) == 0
     { }
 
-    pub broadcast group group_total { b_total_evict, b_total_store, b_total_fresh, b_total_empty }
+    /// storing a key that is in neither store nor queue
+    pub broadcast proof fn b_total_push<V>(m: Map<String, V>, q: Seq<String>, k: String, e: V, f: spec_fn(V) -> nat)
+        requires wf(m, q), !q.contains(k)
+        ensures #[trigger] total_q(m.insert(k, e), q.push(k), f) == total_q(m, q, f) + f(e)
+    {
+        lemma_total_push(m.insert(k, e), q, k, f);
+        assert forall|i: int| 0 <= i < q.len() implies m.insert(k, e)[#[trigger] q[i]] == m[q[i]] by {
+            assert(q.contains(q[i]));
+        }
+        lemma_total_frame(m.insert(k, e), m, q, f);
+    }
+
+    pub broadcast group group_total { b_total_push, b_total_evict, b_total_store, b_total_fresh, b_total_empty }
 
     pub proof fn lemma_rm_all_nodup(s: Seq<String>, k: String)
         requires s.no_duplicates()
